@@ -108,6 +108,28 @@ def random_layer_graph(rng, nmax=6, nmin=1, p_edge=0.4, p_inst=0.35,
     return specs
 
 
+def diamond_family(rng, kind=None, p_hook=0.8, names=None):
+    """Layer with three bases of which two share a base of their own, the
+    third being an unrelated root - every order of the three bases and every
+    relative naming occurs over the seeds (the order of layers is computed
+    from base lists and names, so both matter)."""
+    names = list(names or rng.sample(NAME_POOL, 5))
+    base, left, right, aux, top = names
+    kind = kind or rng.choice(['class', 'inst'])
+    tb = [left, right, aux]
+    rng.shuffle(tb)
+
+    def hooks():
+        return {h: 'ok' for h in HOOKS if rng.random() < p_hook}
+    roots = [{'name': base, 'kind': kind, 'bases': [], 'hooks': hooks()},
+             {'name': aux, 'kind': kind, 'bases': [], 'hooks': hooks()}]
+    rng.shuffle(roots)
+    return roots + [
+        {'name': left, 'kind': kind, 'bases': [base], 'hooks': hooks()},
+        {'name': right, 'kind': kind, 'bases': [base], 'hooks': hooks()},
+        {'name': top, 'kind': kind, 'bases': tb, 'hooks': hooks()}]
+
+
 def _mro_ok(specs, base_idx):
     """Check that a class with these bases has a consistent MRO."""
     classes = {}
